@@ -48,6 +48,58 @@ def iterator_finite(facts, ti, depth=0):
     return None
 
 
+FINITE_COLLECTION = r"^&?(mut )?((std|alloc)::vec::Vec<|std::collections::(HashMap|HashSet|BTreeMap|BTreeSet|VecDeque)<|(std|alloc)::collections::|\[|(std|core)::option::Option<|(std|core)::result::Result<)"
+
+
+def generic_iterator_finite(facts, body, ti):
+    """Finiteness of an iterator whose type is a generic parameter P of `body` (P: Iterator) or the projection
+    `<P as IntoIterator>::IntoIter`: decided from what P is instantiated with at every call site in the crate —
+    all finite collections / finite iterators: True; one infinite: False; no call site or anything unknown: None."""
+    t = facts.ty(ti)
+    pname = None
+    proj = False
+    if t["k"] == "param":
+        pname = t["s"]
+    elif t["k"] == "alias":
+        m = re.match(r"^<(.+) as (std|core)::iter::IntoIterator>::IntoIter$", t["s"])
+        if m:
+            pname, proj = m.group(1), True
+    gens = [g for g in (body.get("generics") or []) if not g.startswith("const ") and not g.startswith("'")]
+    if pname is None or pname not in gens:
+        return None, []
+    from rules.lib_call import all_fn_refs
+    idx = gens.index(pname)
+    me = body["path"]
+    insts = []
+    for q, qb in facts.bodies.items():
+        if qb.get("derived"):
+            continue
+        for bi, f, sp, how in all_fn_refs(qb):
+            if f["path"] == me or f.get("resolved") == me:
+                targs = [a for a in f.get("args", []) if isinstance(a, int)]
+                if len(targs) == len(gens):
+                    insts.append(targs[idx])
+                else:
+                    insts.append(None)
+    if not insts:
+        return None, []
+    res = True
+    names = []
+    for a in insts:
+        if a is None:
+            return None, names
+        ta = facts.ty(a)
+        names.append(ta["s"])
+        if ta["k"] in ("param", "alias"):
+            return None, names  # instantiated with the caller's own parameter: not followed further
+        r = True if (proj and re.search(FINITE_COLLECTION, ta["s"])) else iterator_finite(facts, a)
+        if r is False:
+            return False, names
+        if r is None:
+            res = None
+    return res, names
+
+
 def own_blocks(loop, loops):
     own = set(loop["blocks"])
     for other in loops:
@@ -94,6 +146,10 @@ def classify_loops(facts, body, pump_callees, eof_variants):
                 continue
             self_ty = f.get("self_ty")
             fin = iterator_finite(facts, self_ty) if self_ty is not None else None
+            if fin is None and self_ty is not None and facts.ty(self_ty)["k"] in ("param", "alias"):
+                fin, inst_names = generic_iterator_finite(facts, body, self_ty)
+                if inst_names:
+                    info["instantiated_with"] = sorted(set(inst_names))
             # the None arm (discriminant 0) of the switch on the result must leave the loop
             dest = t["dest"]
             leaves = None
